@@ -12,18 +12,19 @@ PROPS = {
     "C02": (["hist_random"], "TLC trace validation of AppliedComplete / RefreshApplies / RefreshEqualsReload"),
     "C03": (["hist_random"], "TLC trace validation of Durable (fresh replica after every commit)"),
     "C04": (["hist_random"], "TLC trace validation of Exact / Weak / Idempotent / EmptyCommit"),
-    "C05": (["hist_random"], "TLC trace validation of WinnerRule / TreeFromBlocks"),
-    "C06": (["hist_random"], "TLC trace validation of ArrayView"),
+    "C05": (["hist_random", "fn_revtree", "fn_revision"], "TLC trace validation of WinnerRule / TreeFromBlocks on histories; every small tree shape under every insertion order and the comparison matrix against the spec's rule"),
+    "C06": (["hist_random", "fn_merge", "mc_merge"], "TLC: transcription of merge_arrays satisfies the C06 relation on the bound; the real merge_arrays checked against the relation on every pair; ArrayView on histories"),
     "C07": (["hist_random"], "TLC trace validation of Resolve"),
     "C08": (["hist_random"], "watchdog + TLC trace validation of Returns"),
     "C09": (["hist_random"], "crash / write-failure enumeration + TLC trace validation"),
+    "C10": (["hist_random"], "damage enumeration (flip / truncate / empty / delete / inject) + TLC trace validation of ErrorOrIntact / NoAlteredContent"),
     "C11": (["hist_random"], "TLC trace validation of Names / AppendOnly / SameBytes"),
     "C12": (["hist_random"], "TLC trace validation of NoDocChange"),
     "C13": (["hist_random"], "TLC trace validation of Graph / Commit / ReadBack"),
     "C14": (["hist_random"], "TLC trace validation of Travel / Retrievable"),
     "C15": (["hist_random"], "TLC trace validation of Unstage / ExportReplay / Guards / CommitCleans"),
-    "C16": (["hist_random"], "TLC trace validation of Reconstructs / StoredEqualsSubmitted"),
-    "C19": (["hist_random"], "TLC trace validation of Canonical / LeafOrderTotal"),
+    "C16": (["hist_random", "fn_diff"], "TLC trace validation of Reconstructs / StoredEqualsSubmitted"),
+    "C19": (["hist_random", "fn_revision"], "TLC trace validation of Canonical / LeafOrderTotal"),
 }
 
 
@@ -78,7 +79,8 @@ def st_hist_random(tier, seed, d):
     os.makedirs(d, exist_ok=True)
     specs = os.path.join(d, "specs.ndjson")
     n = {"quick": 1, "thorough": 25}[tier]
-    plan = [("random", 150 * n), ("crash", 40 * n), ("floats", 30 * n), ("single", 20 * n)]
+    plan = [("random", 110 * n), ("crash", 30 * n), ("floats", 20 * n), ("single", 20 * n),
+            ("deliver", 40 * n), ("fail", 30 * n), ("damage", 30 * n)]
     base = 0
     open(specs, "w").close()
     for prof, cnt in plan:
@@ -103,7 +105,50 @@ def sample_specs(path, k):
     return out
 
 
-STAGES = {"hist_random": st_hist_random}
+def fn_stage(which):
+    def run(tier, seed, d):
+        info = vlib.run_fn(which, d, tier, seed)
+        results = vlib.validate_fn_dir(d)
+        viol, counts, states, consumed = [], {}, 0, 0
+        for r in results:
+            if r.get("error"):
+                raise vlib.ToolError("FnTrace validation failed on %s:\n%s" % (r["bundle"], r["error"]))
+            for v in r["violations"]:
+                v["fn"] = which
+                viol.append(v)
+            for k, c in r["counts"].items():
+                counts[k] = counts.get(k, 0) + c
+            states += r["states"]
+            consumed += r["consumed"]
+        samples = []
+        for f in sorted(glob.glob(os.path.join(d, "*.fn.ndjson")))[:1]:
+            with open(f) as fh:
+                for i, line in enumerate(fh):
+                    if i % 997 == 0 and len(samples) < 4:
+                        samples.append(json.loads(line))
+        return {"violations": viol, "counts": counts, "tlc_states": states, "events": consumed, "runs": 0,
+                "timeouts": [], "samples": samples, "fn_events": info["events"], "exhaustive_fn": which in ("merge", "diff")}
+    return run
+
+
+def st_mc_merge(tier, seed, d):
+    """TLC shows the transcription of merge_arrays satisfies the C06 relation on the bound."""
+    os.makedirs(d, exist_ok=True)
+    cfg = os.path.join(d, "ArrayMergeMC.cfg")
+    syms, maxlen = ('{"a", "b", "c", "d"}', 4) if tier == "quick" else ('{"a", "b", "c", "d", "e"}', 5)
+    open(cfg, "w").write("INIT Init\nNEXT Next\nCONSTANTS\n  Syms = %s\n  MaxLen = %d\n" % (syms, maxlen))
+    rc, out = vlib.run_tlc(os.path.join(vlib.SPEC, "ArrayMergeMC.tla"), cfg, workers=4, xmx="4g", timeout=3000, queue_deque=False)
+    import re
+    m = re.search(r'<<"PAIRS", (\d+)>>', out)
+    ok = "No error has been found" in out
+    if not ok:
+        raise vlib.ToolError("ArrayMergeMC failed (model-only result, never a VIOLATION):\n" + out[-2000:])
+    return {"violations": [], "counts": {}, "tlc_states": 1, "events": 0, "runs": 0, "timeouts": [],
+            "model": {"module": "ArrayMergeMC", "pairs": int(m.group(1)) if m else 0}}
+
+
+STAGES = {"hist_random": st_hist_random, "fn_merge": fn_stage("merge"), "fn_diff": fn_stage("diff"),
+          "fn_revision": fn_stage("revision"), "fn_revtree": fn_stage("revtree"), "mc_merge": st_mc_merge}
 
 # ---------------------------------------------------------------- known findings
 
@@ -121,7 +166,45 @@ def event_context(v):
     return evs
 
 
-CLASSIFIERS = {}
+def cls_refresh_after_damage_to_loaded_item(v, f):
+    """P10: an incremental refresh does not notice damage to items the replica had already loaded."""
+    if v["op"] != "Refresh":
+        return False
+    evs = [e for e in vlib.load_events(v["bundle"], v["run"])]
+    # events of the mini-run (between resets) that contains the violation
+    cur, found = [], None
+    for e in evs:
+        if e["op"] == "reset":
+            cur = []
+        cur.append(e)
+        if e["i"] == v["i"] and e["op"] == v["op"]:
+            found = list(cur)
+            break
+    if not found:
+        return False
+    r = found[-1]["r"]
+    mine = [e for e in found if e.get("r") == r]
+    damages = [(k, e) for k, e in enumerate(mine) if e["op"] == "Damage"]
+    if not damages:
+        return False
+    for k, d in damages:
+        if d["a"].get("kind") == "inject":
+            return False
+        key = d["a"].get("key", "")
+        loaded = False
+        for e in mine[:k]:
+            o = e.get("obs", {})
+            if key.endswith(".delta") and key[:-6] in o.get("status", {}):
+                loaded = True
+            if key.endswith(".pack") and e["op"] in ("Refresh", "Reload", "Open", "Commit") and e["res"]["kind"] == "ok" \
+                    and any(t.startswith(key + "%23") for t in o.get("items", [])):
+                loaded = True
+        if not loaded:
+            return False
+    return True
+
+
+CLASSIFIERS = {"refresh_after_damage_to_loaded_item": cls_refresh_after_damage_to_loaded_item}
 
 
 def classify(v, known):
@@ -143,6 +226,18 @@ def classify(v, known):
 
 def write_replay(pid, v):
     os.makedirs(os.path.join(OUT, "replays"), exist_ok=True)
+    if v.get("fn"):
+        line = ""
+        with open(v["bundle"]) as f:
+            for i, ln in enumerate(f, 1):
+                if i == v["l"]:
+                    line = ln
+                    break
+        body = {"property": pid, "predicate": v["pred"], "fn": v["fn"], "line": v["l"], "event": json.loads(line) if line else None}
+        h = hashlib.sha256(json.dumps(body, sort_keys=True).encode()).hexdigest()[:12]
+        path = os.path.join(OUT, "replays", "%s-%s.json" % (pid, h))
+        json.dump(body, open(path, "w"))
+        return path
     spec = vlib.find_spec(v["specs"], v["run"]) if v.get("specs") else None
     evs = []
     try:
@@ -241,6 +336,16 @@ def write_evidence(pid, tier, seed, t0, method, counts, events, runs, states, sa
 
 def do_replay(pid, path):
     body = json.load(open(path))
+    if body.get("fn"):
+        d = os.path.join(OUT, "replay_%d" % os.getpid())
+        shutil.rmtree(d, ignore_errors=True)
+        vlib.run_fn(body["fn"], d, "quick", 1)
+        res = vlib.validate_fn_dir(d)
+        bad = [v for r in res for v in r["violations"] if v["pred"].startswith(pid + "_")]
+        for v in bad[:5]:
+            print("VIOLATION property=%s replay=%s predicate=%s op=%s line=%d" % (pid, path, v["pred"], v["op"], v["l"]))
+        shutil.rmtree(d, ignore_errors=True)
+        return 1 if bad else 0
     spec = body.get("spec")
     if not spec:
         raise vlib.ToolError("replay file has no run specification")
